@@ -153,6 +153,7 @@ class SimpleCoating(BaseCoating):
             rays (RealRays): The rays after reflection.
         """
         rays.i *= self.reflectance
+        rays.update()  # polarization matrices, if PolarizedRays
         return rays
 
     def transmit(self, rays: RealRays, nx: np.ndarray = None,
@@ -168,6 +169,7 @@ class SimpleCoating(BaseCoating):
             rays (RealRays): The rays after transmission.
         """
         rays.i *= self.transmittance
+        rays.update()  # polarization matrices, if PolarizedRays
         return rays
 
     def to_dict(self):
